@@ -51,16 +51,14 @@ VARIABLES sp,        \* sp[k]: the object in slot k (record, see Dead/Fresh)
           queue,     \* coro_queue::instance->_queue
           mode,      \* "normal" | "coro"
           blocks,    \* live new[] blocks
-          allocs,    \* number of new[] executed so far
+          dalloc,    \* number of new[] executed by the last operation
           ret,       \* value returned by the last operation (pop: handle, co_await: value; else 0)
           steps, done
 
-vars == <<sp, nextH, resumed, burst, queue, mode, blocks, allocs, ret, steps, done>>
+vars == <<sp, nextH, resumed, burst, queue, mode, blocks, dalloc, ret, steps, done>>
 
-(* ghost fields: na = new[] executed by add() on behalf of this object, big = the object has held
-   more than InlineCap handles at some moment of its life *)
-Dead == [live |-> FALSE, ty |-> FALSE, val |-> 0, h |-> <<>>, heap |-> FALSE, cap |-> 0, na |-> 0, big |-> FALSE]
-Fresh(t, v, hs) == [live |-> TRUE, ty |-> t, val |-> v, h |-> hs, heap |-> FALSE, cap |-> 0, na |-> 0, big |-> FALSE]
+Dead == [live |-> FALSE, ty |-> FALSE, val |-> 0, h |-> <<>>, heap |-> FALSE, cap |-> 0]
+Fresh(t, v, hs) == [live |-> TRUE, ty |-> t, val |-> v, h |-> hs, heap |-> FALSE, cap |-> 0]
 
 Types == IF Typed THEN {FALSE, TRUE} ELSE {FALSE}
 Last(s) == s[Len(s)]
@@ -70,20 +68,24 @@ Occ(s, x) == Cardinality({k \in 1..Len(s) : s[k] = x})
 B2N(b) == IF b THEN 1 ELSE 0
 
 (* suspend_point::add, suspend_point.h:226-270 *)
+Full(o) == Len(o.h) = (IF o.heap THEN o.cap ELSE InlineCap)     \* the next add() executes new[]
 AddOne(o, x) ==
     LET n == Len(o.h) IN
     IF o.heap
       THEN IF n = o.cap
-             THEN \* :234-243 new Ptr[count*2]; copy; delete[] old
-                  [o EXCEPT !.h = Append(@, x), !.cap = 2 * n, !.na = @ + 1, !.big = TRUE]
-             ELSE [o EXCEPT !.h = Append(@, x), !.big = @ \/ n + 1 > InlineCap]
+             THEN \* :234-243 new Ptr[count*2]; copy count handles; delete[] old
+                  [o EXCEPT !.h = Append(@, x), !.cap = 2 * n]
+             ELSE [o EXCEPT !.h = Append(@, x)]                       \* :245-247
       ELSE IF n < InlineCap
              THEN [o EXCEPT !.h = Append(@, x)]                       \* :250-254
-             ELSE \* :255-268 first heap block, capacity count*2, flag set
-                  [o EXCEPT !.h = Append(@, x), !.heap = TRUE, !.cap = 2 * n, !.na = @ + 1, !.big = TRUE]
+             ELSE \* :255-268 first heap block, capacity count*2, copy 3 handles, flag set
+                  [o EXCEPT !.h = Append(@, x), !.heap = TRUE, !.cap = 2 * n]
 
-AddSeq(o, s) ==
-    LET F[k \in 0..Len(s)] == IF k = 0 THEN o ELSE AddOne(F[k - 1], s[k]) IN F[Len(s)]
+(* add() of every element of s in order: resulting object .o and number .a of new[] executed *)
+AddRun(o, s) ==
+    LET F[k \in 0..Len(s)] == IF k = 0 THEN [o |-> o, a |-> 0]
+                                       ELSE [o |-> AddOne(F[k - 1].o, s[k]), a |-> F[k - 1].a + B2N(Full(F[k - 1].o))]
+    IN F[Len(s)]
 
 (* _count_flag = 0 without touching the block: clear_internal after its delete[] (:218-223), the
    source of operator<< (:77) and of the move constructor (:61) *)
@@ -100,31 +102,32 @@ Init == /\ sp = [k \in Slots |-> Dead]
         /\ burst = <<>>
         /\ queue = <<>>
         /\ mode \in Modes
-        /\ blocks = 0 /\ allocs = 0 /\ ret = 0 /\ steps = 0 /\ done = FALSE
+        /\ blocks = 0 /\ dalloc = 0 /\ ret = 0 /\ steps = 0 /\ done = FALSE
 
 Tick(op) == /\ ~done /\ op \in Ops
             /\ IF MaxSteps = 0 THEN steps' = steps     \* unbounded: every history over MaxH handles
                               ELSE steps < MaxSteps /\ steps' = steps + 1
             /\ done' = done
 
-(* effect of add()s that turned object o into n *)
-Grown(o, n) == /\ allocs' = allocs + (n.na - o.na)
-               /\ blocks' = blocks + B2N(n.heap /\ ~o.heap)
+(* bookkeeping of the add()s r = AddRun(o, ..): a growth from a heap block frees the old block *)
+Grown(o, r) == /\ dalloc' = r.a
+               /\ blocks' = blocks + B2N(r.o.heap /\ ~o.heap)
+NoAlloc == dalloc' = 0
 
 (* suspend_point() :45, suspend_point<X>(X) :288 *)
 ConstructEmpty(k, t) ==
     /\ Tick("ConstructEmpty") /\ IsFree(k)
     /\ sp' = [sp EXCEPT ![k] = Fresh(t, IF t THEN k ELSE 0, <<>>)]
-    /\ burst' = <<>> /\ ret' = 0
-    /\ UNCHANGED <<nextH, resumed, queue, mode, blocks, allocs>>
+    /\ burst' = <<>> /\ ret' = 0 /\ NoAlloc
+    /\ UNCHANGED <<nextH, resumed, queue, mode, blocks>>
 
 (* suspend_point(coroutine_handle<>) :50, suspend_point<X>(coroutine_handle<>, X) :290 *)
 ConstructH(k, t) ==
     /\ Tick("ConstructH") /\ IsFree(k) /\ nextH < MaxH
     /\ sp' = [sp EXCEPT ![k] = Fresh(t, IF t THEN k ELSE 0, <<nextH + 1>>)]
     /\ nextH' = nextH + 1
-    /\ burst' = <<>> /\ ret' = 0
-    /\ UNCHANGED <<resumed, queue, mode, blocks, allocs>>
+    /\ burst' = <<>> /\ ret' = 0 /\ NoAlloc
+    /\ UNCHANGED <<resumed, queue, mode, blocks>>
 
 (* move construction into the free slot k from object i.
    kind "same": suspend_point(suspend_point&&) :55 resp. the implicit move constructor of
@@ -140,18 +143,18 @@ MoveConstruct(k, i, kind) ==
     /\ LET t == IF kind = "same" THEN sp[i].ty ELSE kind = "int"
            v == IF kind = "same" THEN sp[i].val ELSE IF kind = "int" THEN k ELSE 0
        IN sp' = [sp EXCEPT ![k] = [live |-> TRUE, ty |-> t, val |-> v, h |-> sp[i].h, heap |-> sp[i].heap,
-                                   cap |-> sp[i].cap, na |-> 0, big |-> Len(sp[i].h) > InlineCap],
+                                   cap |-> sp[i].cap],
                            ![i] = Cleared(sp[i])]
-    /\ burst' = <<>> /\ ret' = 0
-    /\ UNCHANGED <<nextH, resumed, queue, mode, blocks, allocs>>
+    /\ burst' = <<>> /\ ret' = 0 /\ NoAlloc
+    /\ UNCHANGED <<nextH, resumed, queue, mode, blocks>>
 
 NewHandles(n) == [k \in 1..n |-> nextH + k]
 
 (* operator<<(coroutine_handle<>&&) :82 *)
 AddHandle(i) ==
     /\ Tick("AddHandle") /\ sp[i].live /\ nextH < MaxH
-    /\ LET n == AddOne(sp[i], nextH + 1)
-       IN sp' = [sp EXCEPT ![i] = n] /\ Grown(sp[i], n)
+    /\ LET r == AddRun(sp[i], <<nextH + 1>>)
+       IN sp' = [sp EXCEPT ![i] = r.o] /\ Grown(sp[i], r)
     /\ nextH' = nextH + 1
     /\ burst' = <<>> /\ ret' = 0
     /\ UNCHANGED <<resumed, queue, mode>>
@@ -162,8 +165,8 @@ AddHandle(i) ==
 Room(o) == (IF o.heap THEN o.cap ELSE InlineCap) - Len(o.h)
 AddFill(i, n) ==
     /\ Tick("AddFill") /\ sp[i].live /\ n >= 2 /\ n = Room(sp[i]) /\ nextH + n <= MaxH
-    /\ LET o == AddSeq(sp[i], NewHandles(n))
-       IN sp' = [sp EXCEPT ![i] = o] /\ Grown(sp[i], o)
+    /\ LET r == AddRun(sp[i], NewHandles(n))
+       IN sp' = [sp EXCEPT ![i] = r.o] /\ Grown(sp[i], r)
     /\ nextH' = nextH + n
     /\ burst' = <<>> /\ ret' = 0
     /\ UNCHANGED <<resumed, queue, mode>>
@@ -172,10 +175,10 @@ AddFill(i, n) ==
    order, j's block is deleted, j's flag word zeroed *)
 MergeInto(i, j, v) ==
     /\ i # j /\ sp[i].live /\ sp[j].live
-    /\ LET n == [AddSeq(sp[i], sp[j].h) EXCEPT !.val = v]
-       IN /\ sp' = [sp EXCEPT ![i] = n, ![j] = Cleared(sp[j])]
-          /\ allocs' = allocs + (n.na - sp[i].na)
-          /\ blocks' = blocks + B2N(n.heap /\ ~sp[i].heap) - B2N(sp[j].heap)
+    /\ LET r == AddRun(sp[i], sp[j].h)
+       IN /\ sp' = [sp EXCEPT ![i] = [r.o EXCEPT !.val = v], ![j] = Cleared(sp[j])]
+          /\ dalloc' = r.a
+          /\ blocks' = blocks + B2N(r.o.heap /\ ~sp[i].heap) - B2N(sp[j].heap)
     /\ burst' = <<>> /\ ret' = 0
     /\ UNCHANGED <<nextH, resumed, queue, mode>>
 
@@ -197,7 +200,8 @@ Pop(i) ==
               /\ burst' = <<Last(sp[i].h)>>
               /\ resumed' = Bump(resumed, burst')
               /\ sp' = [sp EXCEPT ![i].h = Front(@)]     \* heap flag and capacity stay
-    /\ UNCHANGED <<nextH, queue, mode, blocks, allocs>>
+    /\ NoAlloc
+    /\ UNCHANGED <<nextH, queue, mode, blocks>>
 
 (* suspend_now() :130-145: coroutine mode -> queued in array order; otherwise resumed at once in
    array order under a temporarily installed queue; then clear_internal() *)
@@ -212,8 +216,8 @@ Clear(i) ==
     /\ Emit(sp[i].h)
     /\ sp' = [sp EXCEPT ![i] = Cleared(sp[i])]
     /\ blocks' = blocks - B2N(sp[i].heap)
-    /\ ret' = 0
-    /\ UNCHANGED <<nextH, mode, allocs>>
+    /\ ret' = 0 /\ NoAlloc
+    /\ UNCHANGED <<nextH, mode>>
 
 (* ~suspend_point() :97-99 (also with _count_flag = 1).  Does not consume the step budget. *)
 Destroy(i) ==
@@ -221,8 +225,8 @@ Destroy(i) ==
     /\ Emit(sp[i].h)
     /\ sp' = [sp EXCEPT ![i] = Dead]
     /\ blocks' = blocks - B2N(sp[i].heap)
-    /\ ret' = 0
-    /\ UNCHANGED <<nextH, mode, allocs, steps, done>>
+    /\ ret' = 0 /\ NoAlloc
+    /\ UNCHANGED <<nextH, mode, steps, done>>
 
 (* co_await sp[i] from the driver coroutine: await_ready :148; await_suspend :167-191: out = pop(),
    the rest is queued in array order, then the driver itself; `out` is resumed by symmetric transfer,
@@ -242,7 +246,8 @@ CoAwait(i) ==
               /\ mode' = "coro"
               /\ sp' = [sp EXCEPT ![i] = Cleared(sp[i])]
               /\ blocks' = blocks - B2N(sp[i].heap)
-    /\ UNCHANGED <<nextH, allocs>>
+    /\ NoAlloc
+    /\ UNCHANGED nextH
 
 (* co_await cocls::pause() coro_queue.h:211-219: everything queued runs before the driver *)
 Pause ==
@@ -250,8 +255,8 @@ Pause ==
     /\ burst' = queue
     /\ resumed' = Bump(resumed, queue)
     /\ queue' = <<>>
-    /\ ret' = 0
-    /\ UNCHANGED <<sp, nextH, mode, blocks, allocs>>
+    /\ ret' = 0 /\ NoAlloc
+    /\ UNCHANGED <<sp, nextH, mode, blocks>>
 
 (* the driver coroutine returns: flush_queue (coro_queue.h:63-70) drains the queue and the queue
    is uninstalled (:105-108) *)
@@ -262,8 +267,8 @@ Finish ==
     /\ queue' = <<>>
     /\ mode' = "normal"
     /\ done' = TRUE
-    /\ ret' = 0
-    /\ UNCHANGED <<sp, nextH, blocks, allocs, steps>>
+    /\ ret' = 0 /\ NoAlloc
+    /\ UNCHANGED <<sp, nextH, blocks, steps>>
 
 Kinds == {"same", "void", "int"}
 
@@ -311,10 +316,12 @@ NoLeak ==
     /\ blocks = Cardinality({k \in Live : sp[k].heap})
     /\ done => blocks = 0
 
-(* an object that never held more than 3 handles never allocated *)
+(* new[] is executed only by an operation that makes an object hold more than 3 handles (and more
+   than it held before): an object that never holds more than 3 handles never allocates *)
 InlineNoAlloc ==
-    /\ \A k \in Live : ~sp[k].big => sp[k].na = 0
-    /\ \A k \in Live : ~sp[k].big /\ sp[k].heap => Len(sp[k].h) <= InlineCap   \* inherited block only
+    [][dalloc' > 0 => \E i \in Slots : /\ sp'[i].live /\ Len(sp'[i].h) > InlineCap
+                                       /\ Len(sp'[i].h) > Len(sp[i].h)
+                                       /\ dalloc' <= Len(sp'[i].h) - Len(sp[i].h)]_vars
 
 (* the handles of a moved-from / merged-from object are gone from it, and so is its flag word *)
 HandleSet(o) == Range(o.h)
